@@ -195,8 +195,12 @@ def FnStateful(state, features, *, alpha, beta='b'):  # pylint: disable=invalid-
 
 @wrap.Actor.train
 def FnStatefulPos(state, features, labels, alpha=3, beta=None):  # pylint: disable=invalid-name,unused-argument
-    """Stateful function actor with positional-or-keyword options - train part."""
-    return tuple(state or ()) + ((features, labels, alpha),)
+    """Stateful function actor with positional-or-keyword options - train part; updates its state *in place* and returns the
+    same object (the way a ``partial_fit`` style model does)."""
+    if state is None:
+        state = []
+    state.append((features, labels, alpha))
+    return state
 
 
 @FnStatefulPos.apply
